@@ -259,3 +259,7 @@ def falsy2(x=None, y=False):
 
 class TagD(TagB):
   """Tag D (grandchild of A)."""
+
+
+def only_x(x='ox'):
+  return vfx.rec('only_x', locals())
